@@ -195,6 +195,6 @@ def obligations(tier):
             Ob('live-view-step', 'symx', 'one live-view step from an arbitrary controller state', FUNCS, bounds, step, cases=cases,
                stubs=['abstract leaves', 'Message.show stubbed', 'matcher.parse stubbed inside the filter command']),
             Ob('commands-then-arrivals', 'symx', 'filter and breakpoint commands with real matcher texts interleaved (C12\'s real-parser obligation): after every command a message that arrives is shown iff the accumulated FILTER selects it, whatever was given to `breakpoint`',
-               FUNCS + ['core.matcher:parse', 'core.matcher:join'], 'all sequences of <= %d commands from 2 commands x the C12 text pool' % (3 if tier == 'quick' else 4), __import__('harness.c12', fromlist=['real_sequences']).real_sequences,
-               cases=[2, 3] if tier == 'quick' else [2, 3, 4]),
+               FUNCS + ['core.matcher:parse', 'core.matcher:join'], 'all sequences of <= %d commands from 2 commands x the C12 text pool, also after -f / -b matchers given at start-up' % (3 if tier == 'quick' else 4), __import__('harness.c12', fromlist=['real_sequences']).real_sequences,
+               cases=([2, 3] if tier == 'quick' else [2, 3, 4]) + __import__('harness.c12', fromlist=['startup_cases']).startup_cases(tier)),
             Ob('live-view-step-reachable', 'symx', 'reachability twin', FUNCS, bounds, twin, cases=[((0,), None, 'filter', (0, 1))], expect_cex=True)]
